@@ -118,7 +118,25 @@ func runC04(r *simrt.Run) {
 			return
 		}
 		h := hs[t.Choose(len(hs))]
-		switch t.Choose(5) {
+		switch t.Choose(6) {
+		case 5: // a user tries to receive a send that is addressed to a contract
+			top := n.Height()
+			if top < 3 {
+				return
+			}
+			d := n.Detailed(top - uint64(t.Choose(int(minU64(top-2, 6)))))
+			if d == nil {
+				return
+			}
+			for _, b := range d.AccountBlocks {
+				if b.IsSendBlock() && types.IsEmbeddedAddress(b.ToAddress) && b.Amount.Sign() > 0 {
+					_, e := w.Receive(n, u.Address, b.Hash)
+					r.Logf("compete user-receives-contract-send %v by %v: refused=%v", b.Hash.String()[:8], u.Address.String()[:8], e != nil)
+					r.Probe("attempt-user-receives-contract-send")
+					break
+				}
+			}
+			return
 		case 4: // a second contract receive for a call the contract has already received
 			c := types.EmbeddedContracts[t.Choose(len(types.EmbeddedContracts))]
 			as := n.Chain.GetFrontierAccountStore(c)
@@ -214,6 +232,17 @@ func runC04(r *simrt.Run) {
 	for _, n := range w.Nodes {
 		if n != f.A {
 			w.Net.SyncFrom(f.A, n)
+		}
+	}
+	// some nodes restart on their (non-empty) database before the branches part
+	if t.Choose(3) == 0 {
+		for _, n := range w.Nodes {
+			if n.Up && t.Bool() {
+				r.Fault("restart-before-split")
+				if err := n.Restart(false); err != nil {
+					r.Fail("restart", "open", "%v", err)
+				}
+			}
 		}
 	}
 	// split: the same sends can be received on both branches
@@ -318,4 +347,11 @@ func runC04(r *simrt.Run) {
 	r.Sample["heights"] = []uint64{f.A.Height(), f.B.Height()}
 	r.Sample["fork_height"] = f.ForkHeight
 	r.Sample["receives_contract_receives"] = []int{total, contract}
+}
+
+func minU64(a, b uint64) uint64 {
+	if a < b {
+		return a
+	}
+	return b
 }
